@@ -51,6 +51,8 @@ def chunk_validate(out, logs, wd, allow_drops, check_wire, take, tag):
     for (pth, info), r in zip(logs, res):
         out.add_trace(r, runs=info.get("runs", 0))
         out.cov["messages_driven"] = out.cov.get("messages_driven", 0) + info.get("messages", 0)
+        # DRIFT: the library no longer follows the transcribed compression policy (diagnostic only)
+        out.cov["spec_drift"] = out.cov.get("spec_drift", 0) + len([v for v in r["verdicts"] if v["class"] == "DRIFT"])
         r["verdicts"] = [v for v in r["verdicts"] if v["class"] == "TOOL" or take(v)]
         out.verdicts(r)
     return res
@@ -592,12 +594,18 @@ def check_C20(tier):
     out.cov["apalache"] = {"result": "Inv (AddSubInverse, ExactModulo, EqualIff, Antisymmetric, OrderOfSum, AgreesWithLater, "
                            "Antipodal) holds for ALL (a, d) in [0, 2^32)^2 for the transcription of time.rs", "wall_s": round(a["wall"], 1)}
     vlib.build_harness()
-    path = os.path.join(wd, "clock.ndjson")
-    p = vlib.harness(["clock", "--tier", tier, "--seed", vlib.seed(), "--out", path])
-    info = vlib.last_json(p.stdout)
-    r = vlib.validate_trace("Trace_Clock.tla", path, wd, {"Base": 65536})
-    out.add_trace(r, runs=info.get("runs", 0))
-    out.verdicts(r)
+    nsh = 1 if tier == "quick" else 8
+
+    def gen(i):
+        pth = os.path.join(wd, "clock_%d.ndjson" % i)
+        q = vlib.harness(["clock", "--tier", tier, "--seed", vlib.seed() * 100 + i, "--out", pth])
+        return pth, vlib.last_json(q.stdout)
+    logs = vlib.parallel([(lambda i=i: gen(i)) for i in range(nsh)], nproc=8)
+    res = vlib.parallel([(lambda pth=pth: vlib.validate_trace("Trace_Clock.tla", pth, wd, {"Base": 65536})) for pth, _ in logs], nproc=8)
+    for (pth, info), r in zip(logs, res):
+        out.add_trace(r, runs=info.get("runs", 0))
+        out.verdicts(r)
+    path = logs[0][0]
     s5(out, "Trace_Clock.tla", {"Base": 65536}, path, "clock", wd)
     sample_events(out, path, ("Clk",), n=2)
     out.assumptions = ["ClockFlat!Impl* is a faithful transcription of time.rs (bound to the code by the trace check on boundary pairs)",
